@@ -185,7 +185,8 @@ def shape_histories(ip):
                 if st.shape != (2, 2) or not np.allclose(st[:, 0], [px, py], rtol=0, atol=1e-12):
                     bad.append(("centre_of_gravity:single-pixel:after-frames-of-other-shapes", dict(shape=[ny, nx], stack=True, got=st.tolist())))
                     return bad, n
-    for (n1, p1), (n2, p2) in (((12, 1), (6, 2)), ((12, 2), (8, 3)), ((10, 3), (15, 2)), ((9, 2), (6, 3)), ((6, 3), (9, 2))):
+    # (the last three pairs: padded sizes 13, 17, 19, 26, 34 - prime factors an FFT "fast length" would round away)
+    for (n1, p1), (n2, p2) in (((12, 1), (6, 2)), ((12, 2), (8, 3)), ((10, 3), (15, 2)), ((9, 2), (6, 3)), ((6, 3), (9, 2)), ((13, 1), (17, 1)), ((13, 2), (19, 1)), ((17, 2), (11, 3))):
         for nn, pp in ((n1, p1), (n2, p2)):
             yy, xx = np.indices((nn, nn))
             blob = lambda cy, cx: np.exp(-((xx - cx) ** 2 + (yy - cy) ** 2) / 0.35)       # compact: stays inside the frame when shifted by one
@@ -195,6 +196,9 @@ def shape_histories(ip):
                 got = np.asarray(ip.correlation_centroid(im.copy(), ref.copy(), threshold=0.3, padding=pp), float).ravel()
                 n += 1
                 base = np.asarray(ip.correlation_centroid(ref.copy(), ref.copy(), threshold=0.3, padding=pp), float).ravel()
+                if base.shape != (2,) or not np.allclose(base, [c0, c0], rtol=0, atol=2e-2):          # undisplaced: the array centre n // 2
+                    bad.append(("correlation_centroid:displacement:undisplaced-copy-not-at-the-centre", dict(frame=nn, padding=pp, got=base.tolist(), centre=c0)))
+                    return bad, n
                 if got.shape != (2,) or not np.allclose(got - base, [sx, sy], rtol=0, atol=2e-2):
                     bad.append(("correlation_centroid:displacement:after-frames-of-other-shapes", dict(frame=nn, padding=pp, shift=[sx, sy], got=(got - base).tolist())))
                     return bad, n
